@@ -34,6 +34,6 @@ PY
   )
 fi
 for c in $CHECKS; do
-  VERIF_REPO="$W" /verif/run.py "$c" "${TIER:-quick}" 2>&1 | grep -E "VIOLATION|KNOWN|seed=|HARNESS" | head -6
+  VERIF_EVIDENCE_DIR="$W/.evidence" VERIF_REPO="$W" /verif/run.py "$c" "${TIER:-quick}" 2>&1 | grep -E "VIOLATION|KNOWN|seed=|HARNESS" | head -6
   echo "  -> check $c exit=${PIPESTATUS[0]}"
 done
